@@ -39,6 +39,7 @@ def run(ctx):
     P = 'C12'
     seipdv2(ctx, P)
     skesk(ctx, P)
+    secret_key_aead(ctx, P)
     s2k(ctx, P)
     mdc(ctx, P)
     ecdh(ctx, P)
@@ -68,6 +69,31 @@ def seipdv2(ctx, P):
     for u in users:
         if 'encryptor' not in u and 'decryptor' not in u:
             ctx.functions.discard(u)
+
+
+def secret_key_aead(ctx, P):
+    """RFC 9580 §3.7.2.1: HKDF info and the first octet of the associated data of AEAD-protected secret key material are the
+    packet type ID in OpenPGP format, i.e. 0xC0 | tag of the packet that is protected (0xC5 secret key, 0xC7 secret subkey) —
+    computed from the tag parameter, not a constant per call."""
+    b = ctx.body('types::params::plain_secret::s2k_usage_aead')
+    if b is None:
+        return
+    ors = [(i, s_) for i, k, s_ in b.stmts(lambda s: s['r']['k'] == 'bin' and s['r']['op'] == 'BitOr'
+                                          and any('k' in o and o['k'].get('v') == 0xC0 for o in s['r']['o']))]
+    good_or = [i for i, s_ in ors if any(has_origin(b.operand_origins(o), r'param:2$') and has_origin(b.operand_origins(o), r'callres:.*From<types::packet::Tag> for u8>::from$') for o in s_['r']['o'] if 'l' in o)]
+    a4 = arrays(b, 4)
+    a1 = arrays(b, 1)
+    def from_tag(i, idx, n):
+        for bi, k, st in b.stmts(lambda s: s['r']['k'] == 'agg' and s['r'].get('ak') == 'array' and len(s['r']['o']) == n):
+            if bi == i:
+                og = b.operand_origins(st['r']['o'][idx])
+                return has_origin(og, r'op:BitOr$') and has_origin(og, r'const:192:u8$') and has_origin(og, r'param:2$')
+        return False
+    info_ok = any(from_tag(i, 0, 4) and 'version' in str(el[1]) and 'param:4' in str(el[2]) and 'param:5' in str(el[3]) for i, el in a4)
+    ad_ok = any(from_tag(i, 0, 1) for i, el in a1)
+    ctx.check(P + ':secret-aead:type-id-from-tag', 'R-table', 'the packet type ID octet is 0xC0 | u8::from(secret_tag) (distinct for secret keys and secret subkeys)', bool(good_or), function=b.path)
+    ctx.check(P + ':secret-aead:hkdf-info', 'R-table', 'HKDF info is (type id, key version, cipher, AEAD mode) with the type id computed from the tag', info_ok, function=b.path, table=[el for i, el in a4])
+    ctx.check(P + ':secret-aead:ad-starts-with-type-id', 'R-table', 'the associated data starts with the same type id octet, followed by the serialised public key', ad_ok and bool(b.calls(r'Serialize::to_writer$')), function=b.path)
 
 
 def skesk(ctx, P):
